@@ -64,9 +64,9 @@ func VerifC13_Header() {
 	case 5:
 		m = bldOption(4)
 	case 6:
-		m = bldHopByHop(vr.U8("next"))
+		m = bldHopByHop(vr.U8("next"), true)
 	case 7:
-		m = bldRouting(vr.U8("next"))
+		m = bldRouting(vr.U8("next"), true)
 	case 8:
 		m = bldFragment(vr.U8("next"))
 	case 9:
